@@ -81,6 +81,14 @@ Theorem C07_pop_charges_parent :
 Proof. exact pop_charges_parent. Qed.
 Print Assumptions C07_pop_charges_parent.
 
+(* ... and the stack is popped on EVERY path of PopContext, including the ones where charging the parent terminates
+   it (its time limit ran out while the child was running, or a stop was requested): the parent is current again
+   when the termination unwinds, so the frame of the parent ends the parent's own context. *)
+Theorem C07_pop_always_pops :
+  forall now c p rest, parents (mres_mgr (pop now (mkMgr c (p :: rest)))) = rest.
+Proof. exact pop_always_pops. Qed.
+Print Assumptions C07_pop_always_pops.
+
 Theorem C07_due_iff :
   forall c, due c = true <->
   (soft_stop c = true \/ atLimit (cpu (used c)) (cpu (soft c)) = true
